@@ -21,9 +21,9 @@ AUDIT = {
         'min(a, x) <= a',
     'io::fasta::IndexedReader::<R>::read_line|overflow-sub|arg2.line_bytes,arg3':
         'line_offset < line_bytes: seek_to returns start % line_bases < line_bases <= line_bytes and read_line resets the offset to 0 when it reaches line_bytes',
-    'io::fasta::IndexedReader::<R>::read_line|index|index((Try>::branch(BufRead>::fill_buf(arg1.reader)) as Continue).0,RangeTo::RangeTo{t.1})<[u8]>':
+    'io::fasta::IndexedReader::<R>::read_line|index|index((Try>::branch(BufRead>::fill_buf(arg1.reader)) as Continue).0,RangeTo::RangeTo{x0})<[u8]>':
         'bytes_to_keep <= bases_in_buffer <= src.len()',
-    'io::fasta::IndexedReader::<R>::read_line|overflow-add|arg3,t.0':
+    'io::fasta::IndexedReader::<R>::read_line|overflow-add|arg3,x0':
         'line_offset + bytes_to_read <= line_bytes <= u64::MAX',
     'io::fasta::IndexedReader::<R>::read_line|explicit-panic|panic(lit)<>':
         'assert!(bytes_to_read > 0): src is non-empty (EOF returned an error above), line_offset < line_bytes, and callers pass bases_left > 0 (loop guard in read_into_buffer, assert + guard in fill_buffer/next)',
